@@ -264,6 +264,52 @@ Arguments out A : clear implicits.
 Arguments ev A : clear implicits.
 Arguments state A : clear implicits.
 
+(* ---- Session.listen: which wake-ups sweep ------------------------------------------------
+   One pass of the loop: wait; `if s.errors == 0 { markSweepFrags() }` -- the test is on the counter as
+   the PREVIOUS pass left it; `if p.Switch(e) { ...; s.errors-- }` (uint8); Connect: on an error
+   `if s.errors <= maxErrors { s.errors++; continue }` else the loop ends; session(c): false (nothing
+   received, or receive() returned an error) => s.errors++, true => s.errors = 0; the loop ends when
+   s.errors > maxErrors.  A wake-up is described by what happened in it. *)
+Definition maxErrors : Z := 5.
+Inductive lwake (A : Type) :=
+| LRefused (sw : bool)                  (* Connect failed *)
+| LLost (sw : bool)                     (* connected, the exchange failed before a packet was read *)
+| LPkt (sw : bool) (p : packet A).      (* the exchange brought p, which went to receive() *)
+Arguments LRefused {A}. Arguments LLost {A}. Arguments LPkt {A}.
+Definition lw_sw {A} (w : lwake A) : bool :=
+  match w with LRefused sw => sw | LLost sw => sw | LPkt sw _ => sw end.
+Definition is_err {A} (o : out A) : bool := match o with OErr _ => true | _ => false end.
+
+(* the receiver-side history (wake-up sweeps and arrivals) the loop produces from a list of wake-ups,
+   the error counter after each pass, and whether the loop ended ("too many errors") *)
+Fixpoint listen_sim {A} (self errs : Z) (st : state A) (ws : list (lwake A)) : list (ev A) * list Z * bool :=
+  match ws with
+  | [] => ([], [], false)
+  | w :: r =>
+    let pre := if errs =? 0 then [EvSweep] else [] in
+    let st1 := if errs =? 0 then sweep st else st in
+    let e1 := if lw_sw w then u8 (errs - 1) else errs in
+    match w with
+    | LRefused _ =>
+      if e1 <=? maxErrors then
+        let e2 := u8 (e1 + 1) in
+        let '(evs, el, sp) := listen_sim self e2 st1 r in (pre ++ evs, e2 :: el, sp)
+      else (pre, [e1], true)
+    | LLost _ =>
+      let e2 := u8 (e1 + 1) in
+      if maxErrors <? e2 then (pre, [e2], true)
+      else let '(evs, el, sp) := listen_sim self e2 st1 r in (pre ++ evs, e2 :: el, sp)
+    | LPkt _ p =>
+      let e2 := if is_err (snd (recv self st1 p)) then u8 (e1 + 1) else 0 in
+      if maxErrors <? e2 then (pre ++ [EvPkt p], [e2], true)
+      else let '(evs, el, sp) := listen_sim self e2 (fst (recv self st1 p)) r in
+           (pre ++ EvPkt p :: evs, e2 :: el, sp)
+    end
+  end.
+Definition listen_evs {A} (self errs : Z) (st : state A) (ws : list (lwake A)) : list (ev A) :=
+  fst (fst (listen_sim self errs st ws)).
+
+
 (* ---- correspondence cases ------------------------------------------------
    Payloads are described by a generator: len elements of the sequence s, nxt s, nxt (nxt s), ...
    (period 251, coprime to every F); byte strings are compared through their run-length encoding
@@ -330,9 +376,16 @@ Inductive item := IFrag (s k : Z) | ISweep.
 (* observed residue: (group, (max, e, c, number of stored fragments)) *)
 Definition ocluster : Type := Z * (Z * Z * Z * Z).
 
+(* one wake-up of a client whose REAL listen loop is run: refused connect, lost exchange, or the
+   exchange that brings fragment k of send s; sw = what Profile.Switch returned in that pass *)
+Inductive litem := LIRefused (sw : bool) | LILost (sw : bool) | LIFrag (sw : bool) (s k : Z).
+
 Inductive case :=
 | CHist (F cap : Z) (sends : list send) (self : Z) (sched : list item)
-        (outs : list oout) (final : list ocluster).
+        (outs : list oout) (final : list ocluster)
+(* outs: the reaction to every arriving packet; errs: s.errors after every pass; stopped: the loop ended *)
+| CListen (F cap : Z) (sends : list send) (self : Z) (wakes : list litem)
+          (outs : list oout) (errs : list Z) (stopped : bool) (final : list ocluster).
 
 Fixpoint build_events (frs : list (list (packet Z))) (sched : list item) : option (list (ev Z)) :=
   match sched with
@@ -364,17 +417,60 @@ Fixpoint all2 {X Y} (f : X -> Y -> bool) (a : list X) (b : list Y) : bool :=
   | _, _ => false
   end.
 
+Fixpoint build_wakes (frs : list (list (packet Z))) (ws : list litem) : option (list (lwake Z)) :=
+  match ws with
+  | [] => Some []
+  | LIRefused sw :: r => match build_wakes frs r with Some l => Some (LRefused sw :: l) | None => None end
+  | LILost sw :: r => match build_wakes frs r with Some l => Some (LLost sw :: l) | None => None end
+  | LIFrag sw s k :: r =>
+    if (s <? 0) || (k <? 0) then None else
+    match nth_error frs (Z.to_nat s) with
+    | Some fr => match nth_error fr (Z.to_nat k) with
+                 | Some p => match build_wakes frs r with Some l => Some (LPkt sw p :: l) | None => None end
+                 | None => None
+                 end
+    | None => None
+    end
+  end.
+
+(* the reactions at the packet arrivals of a history *)
+Fixpoint pkt_outs {A} (evs : list (ev A)) (os : list (out A)) : list (out A) :=
+  match evs, os with
+  | EvPkt _ :: r, o :: os' => o :: pkt_outs r os'
+  | EvSweep :: r, _ :: os' => pkt_outs r os'
+  | _, _ => []
+  end.
+
+Definition sends_ok (F cap : Z) (sends : list send) : list (Z * list (packet Z)) * bool :=
+  let ws := map (fun s => write F cap (s_wait s) (s_local s) (s_qlen s) (s_group s) (send_packet s)) sends in
+  (ws, all2 (fun (w : Z * list (packet Z)) (s : send) =>
+                (fst w =? s_err s) && list_eqb opkt_eqb (map obs_pkt (snd w)) (s_obs s)) ws sends).
+
 Definition check (c : case) : bool :=
   match c with
   | CHist F cap sends self sched outs final =>
-    let ws := map (fun s => write F cap (s_wait s) (s_local s) (s_qlen s) (s_group s) (send_packet s)) sends in
-    all2 (fun (w : Z * list (packet Z)) (s : send) =>
-                (fst w =? s_err s) && list_eqb opkt_eqb (map obs_pkt (snd w)) (s_obs s)) ws sends
+    let '(ws, ok) := sends_ok F cap sends in
+    ok
     && match build_events (map snd ws) sched with
        | None => false
        | Some evs =>
          let '(st, os) := run self [] evs in
          list_eqb oout_eqb (map obs_out os) outs && final_ok st final
+       end
+  | CListen F cap sends self wakes outs errs stopped final =>
+    let '(ws, ok) := sends_ok F cap sends in
+    ok
+    && match build_wakes (map snd ws) wakes with
+       | None => false
+       | Some lws =>
+         let '(evs, el, sp) := listen_sim self 0 [] lws in
+         let '(st, os) := run self [] evs in
+         (* the error of receive() is not observable through the loop, only that there was one; the table
+            is read while the loop is parked in the NEXT pass, after that pass's sweep (if it sweeps) *)
+         let oo := map (fun o => match o with OErr _ => OoErr 0 | _ => obs_out o end) (pkt_outs evs os) in
+         let stf := if sp then st else if last el 0 =? 0 then sweep st else st in
+         list_eqb oout_eqb oo outs
+         && list_eqb Z.eqb el errs && Bool.eqb sp stopped && final_ok stf final
        end
   end.
 
@@ -434,3 +530,32 @@ Section Spec.
   Definition counters_ok (st : state A) : Prop :=
     Forall (fun kc : Z * cluster A => 1 <= c_c (snd kc) <= fragMaxMisses) st.
 End Spec.
+
+(* ---- vocabulary for the listen-loop statements --------------------------------------------------- *)
+Section SpecListen.
+  Context {A : Type}.
+  (* no two wake-up sweeps without an arrival between them (pending = a sweep since the last arrival) *)
+  Fixpoint sparse (pending : bool) (evs : list (ev A)) : bool :=
+    match evs with
+    | [] => true
+    | EvSweep :: r => negb pending && sparse true r
+    | EvPkt _ :: r => sparse false r
+    end.
+  (* fewer than 4 arrivals of other packets between two successive arrivals of group g (f = so far) *)
+  Fixpoint fgap_from (g f : Z) (evs : list (ev A)) : bool :=
+    match evs with
+    | [] => true
+    | EvSweep :: r => fgap_from g f r
+    | EvPkt p :: r =>
+      if f_group (p_flags p) =? g then fgap_from g 0 r
+      else if existsb (is_own g) r then (f + 1 <? 4) && fgap_from g (f + 1) r else true
+    end.
+  Fixpoint fgap (g : Z) (evs : list (ev A)) : bool :=
+    match evs with
+    | [] => true
+    | EvSweep :: r => fgap g r
+    | EvPkt p :: r => if f_group (p_flags p) =? g then fgap_from g 0 r else fgap g r
+    end.
+  (* Profile.Switch never reports a switch (Static profiles; a Group with a single entry) *)
+  Definition no_switch (ws : list (lwake A)) : bool := forallb (fun w => negb (lw_sw w)) ws.
+End SpecListen.
